@@ -689,10 +689,12 @@ class Interp:
 
         ctx = self.ctx
         outer = ctx.no_fork  # nested boolean operators are speculated as part of the outer one
+        if outer and os.environ.get("PYVC_NO_NESTED_SPEC"):
+            return None
         is_and = isinstance(node.op, ast.And)
         terms = []
         ctx.no_fork = True
-        n_trace = len(ctx.trace)
+        n_trace = ctx.n_real
         try:
             for sub in node.values:
                 v = self.eval(sub, env)
@@ -710,7 +712,7 @@ class Interp:
             return None
         finally:
             ctx.no_fork = outer
-        if len(ctx.trace) != n_trace:
+        if ctx.n_real != n_trace:
             return None
         if not terms:
             return ("value", is_and)
